@@ -110,13 +110,14 @@ def space_A(quick, flip):
 
 def space_B():
     bases, refs = [], []
-    for sc in ("http:", "x:", ""):
+    # schemes: relative-capable (http, ws, ftp), unknown (x), and urllib's "has an authority but no relative resolution" class (git, telnet)
+    for sc in ("http:", "x:", "", "git:", "telnet:", "ws:", "ftp:"):
         for au in ("", "//h.com", "//u:p@h.com:81"):
             for p in (paths(1, True, False) + [""] if au else paths(1, True, True)):
                 for q in ("", "?q=1"):
                     for f in ("", "#f"):
                         bases.append(sc + au + p + q + f)
-    for sc in ("", "http:", "https:", "x:", "HTTP:"):
+    for sc in ("", "http:", "https:", "x:", "HTTP:", "git:", "ws:"):
         for au in ("", "//g.org", "//g.org:8080"):
             for p in (paths(1, True, False) + [""] if au else paths(1, True, True)):
                 if not sc and not au and ":" in p.split("/")[0]:
